@@ -8,7 +8,8 @@ SPEC = os.path.join(common.VERIF, "spec", "ListHeap")
 VARS = ["lx", "ly", "lz"]
 OPS = ["copy-list", "subseq", "reverse", "butlast", "append", "append0", "append3", "remove", "remove-if", "mapcar", "cons", "cdr",
        "rest", "rest0", "nthcdr", "last", "member", "push", "pop", "setcar", "setnth", "setelt", "rplaca", "rplacd", "nconc",
-       "nreverse", "sort", "delete", "add", "list", "alias"]
+       "nreverse", "sort", "delete", "add", "list", "alias",
+       "remove-fe", "delete-fe", "remove-cnt", "remove-fecnt", "substitute", "remove-dup", "union", "set-difference", "reduce-key"]
 MODES = ["exact", "spare", "tail", "butlast", "appended"]
 NEEDS_ELEM = ("setcar", "rplaca", "setnth", "setelt", "rplacd", "subseq", "mapcar")
 
@@ -34,7 +35,9 @@ def _mirror(ln, op):
         ln[d] = max(0, s - op["k"])
     elif o == "last":
         ln[d] = min(1, s)
-    elif o in ("remove", "delete", "member", "remove-if"):
+    elif o == "reduce-key":
+        ln[d] = 1
+    elif o in ("remove", "delete", "member", "remove-if", "remove-fe", "delete-fe", "remove-cnt", "remove-fecnt", "substitute", "remove-dup", "union", "set-difference"):
         ln[d] = 0       # unknown: be conservative, no setter will target it until reassigned
     elif o == "list":
         ln[d] = 2
